@@ -234,6 +234,9 @@ def _verdict(pid, mod, tier, seed, cases, results, globals_, inconclusive, t_sta
         for k, v in r.get("counters", {}).items():
             counters[k] = counters.get(k, 0) + v
         for k, v in r.get("maxima", {}).items():
+            v = float(v)   # non-finite values travel as strings
+            if v != v:
+                v = float("inf")
             if k not in worst or v > worst[k][0]:
                 worst[k] = (v, r.get("case_id"))
         if r.get("harness_error"):
